@@ -80,6 +80,7 @@ def run(ctx, report):
     todo = sorted(national, key=lambda x: x.key)
     # the per-country work runs in forked workers while this process builds the validator model below
     facts.algorithm_table()
+    facts.tree_banks()
     pending = run_recorded_async(names, lambda r, rules: _country(ctx, r, rules), todo)
     from ..vmodel import IbanModel
     from .. import iban_rules as IR
@@ -97,8 +98,9 @@ def run(ctx, report):
     report.analysed["validator_paths"] = {k: len(v) for k, v in m.paths.items()}
 
     report.not_decided += [
-        "equivalence with the national specifications beyond the probe family (every accepted position varied over its class from a base vector, plus pseudo-random fills) — "
-        "a special case keyed on two or more positions at once is outside it",
+        "equivalence with the national specifications beyond the probe family: quick tier - every accepted position varied over its class from a base vector, plus pseudo-random fills; "
+        "thorough tier - additionally every pair of accepted positions varied jointly (all digit / letter values; alphanumeric positions over 11 representative values). "
+        "A special case keyed on three or more positions at once (two in the quick tier) is outside it",
     ]
     report.trusted.append("sv/tables/national.py (reference algorithms)")
 
@@ -155,7 +157,9 @@ def _country(ctx, r, rules):
     n = 0
     mism = None
     computed = []
-    for p in probes(fields, acc, ctx.seed, n_random=600 if ctx.tier == "thorough" else 24):
+    for p in probes(fields, acc, ctx.seed, n_random=600 if ctx.tier == "thorough" else 24, pairs=ctx.tier == "thorough"):
+        if mism is not None:
+            break
         args = [p.get(c, "") for c in acc]
         n += 1
         if ref is not None:
@@ -261,14 +265,21 @@ def _bban_level(ctx, rule, cc, st, bban_cls, r):
     rets = set()
     excs = {}
     consulted = False
+    unconsulted_with = None
     for o in outs:
         if o.kind == "return":
             rets.add(repr(o.value))
         elif o.kind == "raise":
             excs[o.value.name] = o.value
+        here = False
+        entry = "unset"
         for e in o.events:
             if e["kind"] == "call" and getattr(e["callee"], "func", None) is not None and e["callee"].func.name == "validate":
-                consulted = True
+                consulted = here = True
+            if e["kind"] == "bank_option":
+                entry = e["entry"]
+        if o.kind == "return" and not here and entry != "unset" and unconsulted_with is None:
+            unconsulted_with = entry
     rule.instance({"country": cc, "returns": sorted(rets), "raises": sorted(excs), "paths": len(outs)})
     f = prog.get("schwifty.bban.BBAN.validate_national_checksum")
     if rets - {"True"}:
@@ -280,6 +291,10 @@ def _bban_level(ctx, rule, cc, st, bban_cls, r):
     if r is not None:
         if not consulted:
             rule.finding(f"{cc}:unchecked", f"BBAN.validate_national_checksum never consults the algorithm registered for {cc}", f.where)
+        elif unconsulted_with is not None and cc != "DE":
+            # outside Germany no bank entry names a method: whether or not the bank is listed, the country's algorithm decides
+            which = "an unlisted bank" if unconsulted_with is None else f"the listed bank {unconsulted_with.get('bank_code')!r} (checksum_algo: {unconsulted_with.get('checksum_algo', '<absent>')!r})"
+            rule.finding(f"{cc}:unchecked-listed", f"BBAN.validate_national_checksum accepts a {cc} BBAN of {which} without consulting the algorithm registered for {cc}", f.where)
         if "InvalidBBANChecksum" not in excs and not any(not isinstance(e.cls, str) for e in excs.values()):
             rule.finding(f"{cc}:never-rejects", f"the BBAN-level check cannot reject any {cc} BBAN", f.where)
 
@@ -356,12 +371,15 @@ def _install_bank_model(it, ctx, cc):
     if bank is None:
         raise AnalysisError("anchor vanished: BBAN.bank")
     reps = {}
-    for e in ctx.registry.banks:
-        if e.get("country_code") == cc:
-            reps.setdefault(e.get("checksum_algo"), e)
-    options = [None] + [reps[k] for k in sorted(reps, key=repr) if k is not None]
+    for e in ctx.facts.tree_banks():
+        if isinstance(e, dict) and e.get("country_code") == cc:
+            # one representative per (has the field, value): an entry without the field and one carrying an empty value differ
+            reps.setdefault(("checksum_algo" in e, repr(e.get("checksum_algo"))), e)
+    options = [None] + [reps[k] for k in sorted(reps)]
 
     def model(it_, args, kwargs, node):
-        return options[it_.choose(len(options), "bank entry")]
+        c = it_.choose(len(options), "bank entry")
+        it_.event("bank_option", entry=options[c])
+        return options[c]
 
     it.intrinsics[bank.qualname] = model
